@@ -433,6 +433,15 @@ impl<'tcx> Cx<'tcx> {
             }
         }
         o.put("tparams", J::Arr(tparams));
+        // `#[track_caller]`: `Location::caller()` inside this body reports the caller's location (closures do not inherit it)
+        if matches!(kind, DefKind::Fn | DefKind::AssocFn)
+            && tcx
+                .codegen_fn_attrs(did)
+                .flags
+                .contains(rustc_middle::middle::codegen_fn_attrs::CodegenFnAttrFlags::TRACK_CALLER)
+        {
+            o.put("track_caller", J::Bool(true));
+        }
         let mut locals = Vec::new();
         for (_l, decl) in body.local_decls.iter_enumerated() {
             locals.push(J::s(&self.ty(decl.ty)));
